@@ -93,6 +93,14 @@ def exact_eval(spec, coords):
             h = int(hashlib.sha1(("%d|%d|%s" % (spec["seed"], k, key)).encode()).hexdigest()[:8], 16)
             out.append(Fraction((h % 257) - 128, 16))
         return out
+    if spec["kind"] == "peak":
+        import math
+        rel = [(float(x) - a) / (b - a) for x, a, b in zip(xs, spec["a"], spec["b"])]
+        for (amp, sharp, centre) in spec["peaks"]:
+            out.append(fr(amp * math.exp(-sharp * sum((t - centre) ** 2 for t in rel))))
+        return out
+    if spec["kind"] == "rel":
+        xs = [(x - fr(a)) / (fr(b) - fr(a)) for x, a, b in zip(xs, spec["a"], spec["b"])]
     for terms in spec["terms"]:
         s = Fraction(0)
         for (num, den), exps in terms:
@@ -102,6 +110,26 @@ def exact_eval(spec, coords):
             s += t
         out.append(s)
     return out
+
+
+def gen_symmetric_fspec(r, dim, a, b):
+    """integrands that are symmetric in the RELATIVE coordinates of the box: the twin errors of an area are then equal in every
+    dimension, so split_single_dim=True splits in several dimensions at once (more than 2 new objects per refinement)"""
+    import itertools
+    outl = r.choice([1, 1, 2])
+    if r.random() < 0.35:
+        return {"kind": "peak", "outl": outl, "a": list(a), "b": list(b),
+                "peaks": [(r.choice([1.0, 2.0, -1.5]), r.choice([2.0, 4.0, 9.0]), r.choice([0.25, 0.5, 0.7, 1.0])) for _ in range(outl)]}
+    terms = []
+    for _ in range(outl):
+        ts = []
+        for base in r.sample([[2] + [0] * (dim - 1), [3] + [0] * (dim - 1), [2] * dim, [3, 1] + [0] * (dim - 2), [4] + [0] * (dim - 1),
+                              [1] * dim], r.randint(2, 3)):
+            coef = (r.choice([-3, -1, 1, 2, 5]), r.choice([1, 2, 4]))
+            for exps in sorted(set(itertools.permutations(base))):
+                ts.append((coef, list(exps)))
+        terms.append(ts)
+    return {"kind": "rel", "outl": outl, "a": list(a), "b": list(b), "terms": terms}
 
 
 def make_function(spec):
@@ -869,7 +897,8 @@ def build_adaptive(case, reevaluate=False):
     grid = make_grid(gs, a, b, cls=rec_grid(grid_class(gs)))
     if case["strategy"] == "extend-split":
         op = RecIntegration(f, grid=grid, dim=dim)
-        s = RecES(an, bn, operation=op, version=0, automatic_extend_split=bool(case.get("automatic")))
+        s = RecES(an, bn, operation=op, version=0, automatic_extend_split=bool(case.get("automatic")),
+                  split_single_dim=bool(case.get("split_single_dim")))
         ec = ErrorCalculatorExtendSplit()
     else:
         ref = None
@@ -976,9 +1005,10 @@ def case_adaptive(ctx, drv, case, variant):
     fspec = case["f"]
     outl = fspec["outl"]
     exact = (case["grid"]["name"] in ("Trapezoidal", "GlobalTrapezoidal") and not case["grid"].get("modified") and
-             (fspec["kind"] == "table" or all(den in (1, 2, 4, 8) for terms in fspec["terms"] for (num, den), _ in terms)))
+             (fspec["kind"] == "table" or (fspec["kind"] == "poly" and
+                                           all(den in (1, 2, 4, 8) for terms in fspec["terms"] for (num, den), _ in terms))))
     base_tags = {"strategy": strategy, "grid": case["grid"]["name"], "recalculate_frequently": bool(case.get("recalc")),
-                 "automatic_extend_split": bool(case.get("automatic"))}
+                 "automatic_extend_split": bool(case.get("automatic")), "split_single_dim": bool(case.get("split_single_dim"))}
     ok = True
 
     def fail(probe, tags, detail, stop):
@@ -1103,6 +1133,10 @@ def case_adaptive(ctx, drv, case, variant):
     if not replay_on_model(ctx, drv, s, case, variant, exact):
         ok = False
     ctx.count("recorded_ops_" + strategy, len(s.oplog))
+    if case.get("split_single_dim"):
+        ctx.count("ssd_cases")
+        ctx.count("ssd_refinements_with_more_than_two_new_objects_per_area",
+                  sum(1 for e in s.oplog if e["op"].startswith("refine") and e["pops"] and len(e["adds"]) > 2 * len(e["pops"])))
     ctx.count("exact_stream" if exact else "tolerance_stream")
     return ok
 
@@ -1142,17 +1176,18 @@ def gen_dimadaptive(ctx, thorough):
             "max_points": r.choice([30, 60, 100, 150]) if dim == 2 else r.choice([60, 120, 200])}
 
 
-ES_CONFIGS = [   # cycled, so that every family occurs early in every run
-    ({"name": "Trapezoidal", "boundary": True}, False),
-    ({"name": "ClenshawCurtis", "boundary": True}, True),
-    ({"name": "Trapezoidal", "boundary": True}, False),
-    ({"name": "Lagrange", "boundary": True, "p": 2}, True),
-    ({"name": "Trapezoidal", "boundary": True}, True),
-    ({"name": "GaussLegendre", "boundary": True}, True),
-    ({"name": "Trapezoidal", "boundary": True}, False),
-    ({"name": "ClenshawCurtis", "boundary": True}, False),
-    ({"name": "Lagrange", "boundary": True, "p": 3}, True),
-    ({"name": "Lagrange", "boundary": True, "p": 2}, False),
+ES_CONFIGS = [   # (grid, automatic_extend_split, split_single_dim); cycled, so that every family occurs early in every run
+    ({"name": "Trapezoidal", "boundary": True}, False, False),
+    ({"name": "ClenshawCurtis", "boundary": True}, True, False),
+    ({"name": "Trapezoidal", "boundary": True}, False, True),
+    ({"name": "Lagrange", "boundary": True, "p": 2}, True, False),
+    ({"name": "Trapezoidal", "boundary": True}, True, False),
+    ({"name": "GaussLegendre", "boundary": True}, True, False),
+    ({"name": "Trapezoidal", "boundary": True}, False, False),
+    ({"name": "ClenshawCurtis", "boundary": True}, False, True),
+    ({"name": "Lagrange", "boundary": True, "p": 3}, True, False),
+    ({"name": "Trapezoidal", "boundary": True}, False, True),
+    ({"name": "Lagrange", "boundary": True, "p": 2}, False, False),
 ]
 DW_CONFIGS = [   # nodal global grids that run on the unchanged tree (GlobalSimpsonGrid, the Romberg grids and the modified basis raise)
     {"name": "GlobalTrapezoidal", "boundary": True},
@@ -1166,8 +1201,9 @@ DW_CONFIGS = [   # nodal global grids that run on the unchanged tree (GlobalSimp
 
 def gen_adaptive(ctx, thorough, strategy, index=0):
     r = ctx.rng
+    ssd = False
     if strategy == "extend-split":
-        gs, automatic = ES_CONFIGS[index % len(ES_CONFIGS)]
+        gs, automatic, ssd = ES_CONFIGS[index % len(ES_CONFIGS)]
     else:
         gs, automatic = DW_CONFIGS[index % len(DW_CONFIGS)], False
     costly = gs["name"] in ("Lagrange", "GlobalHighOrder", "ClenshawCurtis", "GaussLegendre") or automatic
@@ -1185,6 +1221,11 @@ def gen_adaptive(ctx, thorough, strategy, index=0):
         case["recalc"] = r.choice([1, 2, 3, 5])
     if strategy == "extend-split":
         case["automatic"] = automatic
+        if ssd:
+            # split_single_dim: twin errors equal in every dimension (integrand symmetric in the box's relative coordinates, often on
+            # a non-unit box) make a refinement split in several dimensions at once -> calculate_new_twin_errors after initialize()
+            case["split_single_dim"] = True
+            case["f"] = gen_symmetric_fspec(r, dim, a, b)
     else:
         case["version"] = r.choice([2, 3, 3, 6, 6])
         case["rebalancing"] = r.random() < 0.7
